@@ -36,7 +36,11 @@ ranges, lengths, byte values or sample inputs anywhere in this module)
   comparison true / false empty?) and `x & (2^w - 1) == x for 0 <= x < 2^w`; "both outcomes occur" is only claimed for
   one comparison of the symbol with a constant (and for a conjunction / disjunction in which every other operand is
   decided) - correlated comparisons are not combined.  A reachable test that looks at the assumed value but cannot be
-  evaluated makes the obligation undecided.
+  evaluated makes the obligation undecided.  A branch test that calls a package function whose whole body is `return E`
+  (a named predicate, also one that reaches the test through a table of checks the loader unrolled) is evaluated on E
+  with the parameters bound to the argument expressions (`_expand_calls`: function summary by argument binding (3) - the
+  callee is not run); a test that hands the parsed object to any other callable (a predicate of several statements, an
+  element of a table that is iterated at run time) "looks at" the object: undecided, never "no test of the magic".
 * R3 writer-side magic: (1) resolved callees and struct types, (3) def-use terms (`inline`, single-store attributes,
   tuple unpacking, literal setattr tables - the table rows are read from the syntax tree, the loop is not run),
   (6) constant folding incl. constants imported from another module.
@@ -84,6 +88,32 @@ ranges, lengths, byte values or sample inputs anywhere in this module)
   imply equal seeds; the element was stored for an earlier seed) -> violated; the key is / contains the seed, or
   anything else -> undecided (the stored elements are not followed).  An origin that is a parameter (keys supplied by
   the caller) or None is no hand-out of derived keys; any other unclassified origin makes the obligation undecided.
+* R10 no content of a free-form field makes the accept path of decrypt_metadata fail ("for every field value", "all info
+  strings of length 0 up to the limit"): (1) the array fields of the parsed C definition - a trailing array of variable
+  length is a byte string of arbitrary content and of any length from 0; (3) terms by substitution of single-definition
+  locals: `<parsed object>.<such field>` (through total bytes methods - strip, lower, slices ..) under a *partial*
+  operation - unpacking of `.split(..)` / `.rsplit(..)` / `.splitlines()` (or of the bytes) into a fixed number of names,
+  a constant index into the split parts or into the bytes, a strict `.decode()` with UTF-8 / ASCII, `.index(..)`,
+  `int(..)` / `float(..)`; (4) length domain with one named witness of the property's own quantifier, never a sample that
+  is tried: the *empty* string (info length 0; library lemmas `b"".split(sep)` has one part, `b"".split()` none, an empty
+  string has no element and contains no non-empty string) resp. "a string that contains 0xFF is neither UTF-8 nor
+  ASCII"; (2) the same value flow as R8 (`_Flow`, well-formed domain, no library call raises): violated when the
+  operation is reached on a path of decided tests only (count 0 of `both_count`) and its exception (builtin exception
+  hierarchy) is not caught inside the function; reached under tests that cannot be evaluated / caught by a `finally` /
+  a partial operation without a witness lemma -> undecided; caught by a handler / not reached -> discharged.
+* R11 the derivation does not depend on the content of the seed ("always ..", "all 16-byte random seeds"): in every
+  function in which R5 located a derivation from the random bytes (and in the derivation function itself) (1)/(3) the
+  branch tests / asserts (single-definition locals substituted) are scanned for uses of the seed term; uses of its
+  *shape* (truthiness of a bytes value = not empty, `len`, `is None`, isinstance, an element of a literal sequence handed
+  to any / all) are no content uses.  (2) A content test matters only if one of its branch edges dominates a `raise`
+  outside a handler or a `return` whose value R5 does not classify as derived keys (or it is an assert).  Violated only
+  for the forms with a written lemma that both outcomes occur among the 16-byte seeds - `any(seed)` / `all(seed)`
+  (sixteen 0x00 / 0xFF bytes), `==` / `!=` / `in` / `not in` against constant 16-byte strings (that string / one that
+  differs in a bit) - when the test is exactly that form (negations, and operands of and / or that the shape of the seed
+  decides, aside) and every dominating condition is decided, with
+  the required outcome, by three-valued evaluation under the named assumption "the seed is some bytes value of length
+  16" (truthy, not None, len 16; nothing about its content); any other content test that controls such an exit ->
+  undecided.  No seed value is enumerated or tried.
 """
 
 from __future__ import annotations
@@ -787,6 +817,66 @@ def _stored_names(t):
     return [n.id for n in ast.walk(t) if isinstance(n, ast.Name) and isinstance(n.ctx, (ast.Store, ast.Del))]
 
 
+def _return_expr(g):
+    """The expression a package function / lambda evaluates to when its whole body is `return E` (docstring aside) with
+    plain parameters; None otherwise (several statements, generator, star parameters, decorators ..)."""
+    node = g.node
+    a = node.args
+    if a.vararg is not None or a.kwarg is not None:
+        return None
+    if isinstance(node, ast.Lambda):
+        e = node.body
+    elif isinstance(node, ast.FunctionDef) and not node.decorator_list:
+        body = [s for s in node.body if not (isinstance(s, ast.Expr) and isinstance(s.value, ast.Constant))]
+        if len(body) != 1 or not isinstance(body[0], ast.Return) or body[0].value is None:
+            return None
+        e = body[0].value
+    else:
+        return None
+    if any(isinstance(n, (ast.Yield, ast.YieldFrom, ast.Await, ast.NamedExpr, ast.Lambda, ast.ListComp, ast.SetComp, ast.DictComp, ast.GeneratorExp)) for n in ast.walk(e)):
+        return None
+    return e
+
+
+def _expand_calls(ctx, f, e, depth=0):
+    """e with every call of a package function whose body is a single `return E` replaced by E with the parameters bound to
+    the argument expressions (function summary by argument binding (3): a predicate `def ok(m): return m.magic == K` used
+    as `if not ok(metadata)` is the test `not metadata.magic == K`).  Only plain functions / lambdas (no methods); a free
+    name of E must mean the same at the call site (same module, not a local of the caller).  Returns e itself when nothing
+    was expanded."""
+    if depth > 4 or not any(isinstance(n, ast.Call) for n in ast.walk(e)):
+        return e
+    locs = set(params(f.node)) | {n.id for n in ast.walk(f.node) if isinstance(n, ast.Name) and isinstance(n.ctx, (ast.Store, ast.Del))}
+    changed = [False]
+
+    class _X(ast.NodeTransformer):
+        def visit_Call(self, node):
+            self.generic_visit(node)
+            cal = ctx.rs.resolve_call(f, node)
+            g = cal.func if cal.kind == "func" else None
+            if g is None or g.cls is not None or getattr(cal, "bound", None) or g.fq == f.fq:
+                return node
+            body = _return_expr(g)
+            if body is None:
+                return node
+            ps = set(params(g.node))
+            free = {n.id for n in ast.walk(body) if isinstance(n, ast.Name) and n.id not in ps}
+            if free and (g.module.name != f.module.name or free & locs):
+                return node
+            b = bind_args(node, g.node)
+            if any(b.get(p) is None for p in ps):
+                return node
+            out = _subst(body, {p: b[p] for p in ps})
+            if out is None:
+                return node
+            changed[0] = True
+            return ast.copy_location(_expand_calls(ctx, f, out, depth + 1), node)
+
+    out = _X().visit(copy.deepcopy(e))
+    return ast.fix_missing_locations(out) if changed[0] else e
+
+
+
 class _Flow:
     """Forward data-flow propagation (work list, joins at merge points) of constant / symbolic values of locals along the
     CFG of f under the assumptions `fixed` (an _Env: expression text -> assumed constant or symbol).  Branch edges whose test evaluates to a definite truth value for the values that
@@ -796,8 +886,11 @@ class _Flow:
 
     NOVAL = object()
 
-    def __init__(self, ctx, f, fixed, taint=frozenset(), stop=frozenset(), magic_attr=None, no_exceptions=False):
+    def __init__(self, ctx, f, fixed, taint=frozenset(), stop=frozenset(), magic_attr=None, no_exceptions=False, parses=None):
         self.cfg, self.fn, self.fixed = ctx.cfg(f), f.node, fixed
+        self.ctx, self.f = ctx, f
+        self.parses = dict(parses or {})  # label of the symbol of a parsed object -> its parse call
+        self._forms_cache = {}
         # no_exceptions: the assumption "no statement raises implicitly" - only an explicit `raise` enters a handler
         self.no_exceptions = no_exceptions
         self.taint, self.stop = set(taint), set(stop)
@@ -813,9 +906,25 @@ class _Flow:
         e.update(vals)
         return e
 
+    def _forms(self, expr):
+        """The forms in which an expression is evaluated: as written, with single-definition temporaries substituted, and
+        with the calls of single-expression package functions replaced by their bodies (`_expand_calls`)."""
+        got = self._forms_cache.get(id(expr))
+        if got is None or got[0] is not expr:
+            forms = [expr]
+            i = inline(self.fn, expr)
+            if src(i) != src(expr):
+                forms.append(i)
+            for e in list(forms):
+                x = _expand_calls(self.ctx, self.f, e)
+                if x is not e:
+                    forms.append(x)
+            got = self._forms_cache[id(expr)] = (expr, forms)
+        return got[1]
+
     def _value(self, expr, vals):
         env = self._env(vals)
-        for e in (expr, inline(self.fn, expr)):
+        for e in self._forms(expr):
             try:
                 return _val(e, env)
             except _Unk:
@@ -824,8 +933,12 @@ class _Flow:
 
     def _truth3(self, test, vals):
         env = self._env(vals)
-        v = _tv(test, env)
-        return v if v is not None else _tv(inline(self.fn, test), env)
+        v = None
+        for e in self._forms(test):
+            v = _tv(e, env)
+            if v is not None:
+                break
+        return v
 
     def _tainted(self, e, names):
         todo = [e]
@@ -930,7 +1043,7 @@ class _Flow:
                     if v is True or v is False:
                         dead = cfg.edge_node(st, "false" if v else "true")
                         succs = [x for x in succs if x != dead]
-                    elif v is None and self._looks_at(st.test, out[1]):
+                    elif v is None and self._looks_at(st.test, out[1], out[0]):
                         self._opaque[id(st)] = st
             else:
                 out = (vals, names)
@@ -942,11 +1055,22 @@ class _Flow:
                     self.IN[x] = new
                     work.append(x)
 
-    def _looks_at(self, test, names):
-        if self._tainted(test, names) or self._tainted(inline(self.fn, test), names):
+    def _looks_at(self, test, names, vals=None):
+        forms = self._forms(test)
+        if any(self._tainted(e, names) for e in forms):
             return True
-        if self.attrs:
-            return any(isinstance(n, ast.Attribute) and n.attr in self.attrs for e in (test, inline(self.fn, test)) for n in ast.walk(e))
+        if self.attrs and any(isinstance(n, ast.Attribute) and n.attr in self.attrs for e in forms for n in ast.walk(e)):
+            return True
+        if self.attrs and self.parses and vals is not None:
+            # the parsed object itself is handed to a call whose outcome is tested (a predicate that is not a single
+            # expression, an entry of a table of checks ..): the callee may look at any of its fields
+            for e in forms:
+                for n in ast.walk(e):
+                    if isinstance(n, ast.Call):
+                        for a in list(n.args) + [k.value for k in n.keywords]:
+                            v = self._value(a.value if isinstance(a, ast.Starred) else a, vals)
+                            if isinstance(v, _Sym) and v.label in self.parses:
+                                return True
         return False
 
     # ------------------------------------------------------------------ results
@@ -1066,7 +1190,10 @@ def run(ctx):
         "no returned / stored session keys taken from state that outlives the call under a key that does not determine the seed), and acceptance of every well-formed metadata by decrypt_metadata: no raise / "
         "failing assert is reached when the parsed fields range over the domain read from C2_DEF (magic 0xBEEF, size field "
         "51 + len(info) as the interval [51, 237], every other integer field the interval of its width; branch tests decided "
-        "by interval lemmas).  No code of the repository is executed or evaluated on sample inputs."
+        "by interval lemmas), no partial operation (fixed-arity unpacking / indexing of split parts, byte indexing, strict decoding, "
+        "index(), int()) on the free-form info field on the accept path of decrypt_metadata, and no raise / assert / return of non-derived "
+        "keys decided by a test of the bytes of the seed in the functions that derive session keys.  "
+        "No code of the repository is executed or evaluated on sample inputs."
     )
     rep.not_decided = [
         "field-for-field equality after RSA for all values (cstruct dumps/parse round trip and RSA are library behaviour)",
@@ -1076,6 +1203,9 @@ def run(ctx):
         "R6: exceptions of a with-body whose context manager is a package class with an __exit__ that raises / may return a truthy value are reported undecided",
         "R9: a registry / memo of session keys whose key is or contains the random bytes (or is not built of constants, other metadata fields and parameters only) is reported undecided - the stored elements are not followed; containers handed in as arguments or returned by calls are not followed; object identity / mutation of a returned keys object is not analysed",
         "R1: a metadata field whose type is not an integer type known to the C-definition parser is reported undecided (signedness / width)",
+        "R2/R8: a magic / rejection test that hands the parsed object to a callable which is not a single-expression package function (or to an element of a table that is not unrolled by the loader) is reported undecided",
+        "R10: only the listed partial operations on free-form (variable-length array) fields of the parsed metadata are recognised; operations on values that reach a callee, on fixed-length arrays (aes_rand), or reached only under tests that cannot be evaluated are undecided or not seen; exceptions of library calls in general are R6's (escape set) concern",
+        "R11: content tests of the seed other than any / all / comparison with constant 16-byte strings, tests nested under conditions on other arguments, conditional expressions, and a derivation that is merely skipped (no raise / non-derived return under the test) are reported undecided or not judged",
         "R8: rejections of decrypt_metadata guarded by two or more undecided-by-one-lemma tests, by tests of array fields / of the plaintext content / of the key, or inside loops are reported undecided; RSA keys other than 1024 / 2048 bits are outside the domain (size field bounded by the RSA-2048 limit)",
     ]
     rep.trusted_base = [
@@ -1091,11 +1221,13 @@ def run(ctx):
         "lemma (R9): the fields of a BeaconMetadata and the parameters of a function are independent inputs (the property quantifies over all field values and all 16-byte seeds), so a key term built only of constants, fields other than the seed and other parameters takes equal values for metadata with different seeds; an element of a container that outlives the call was stored by an earlier call",
         "contextlib.contextmanager: an exception of the with-body is thrown into the generator at its yield; what the generator raises or lets through leaves the with statement",
         "dissect.cstruct: the fields of a default-constructed structure are 0 / empty and an array of non-positive computed length serialises to nothing (len(BeaconMetadata()) == fixed part)",
+        "R10 lemmas: the info field (trailing variable-length char array) of a well-formed metadata is any byte string of length 0 up to the limit, the empty one included; b''.split(sep) has exactly one part and b''.split() / b''.splitlines() none; an empty byte string has no element, contains no non-empty string and is no number; a byte string containing 0xFF is neither valid UTF-8 nor ASCII; str/bytes partition always yields three parts; strip / lower / upper / replace / slicing are total",
+        "R11 lemmas: every 16-byte string is a seed; any(b) is False exactly for all-zero b and all(b) is True exactly when no byte is zero, so both outcomes occur among 16-byte strings; b == K for a constant 16-byte K is true for K and false for K with one bit flipped; a bytes value is truthy iff it is not empty",
         "lemmas: [lo, hi) +/- c is the shifted interval (Python integers do not wrap); s + a <op> s + b <=> a <op> b; an integer is truthy iff it is != 0; equal values of builtin types have equal truthiness",
     ]
     from csverif import AnalysisError
 
-    for rule in (r1, r2, r3_r4, r5, r6, r8, r9):
+    for rule in (r1, r2, r3_r4, r5, r6, r8, r9, r10, r11):
         try:
             rule(ctx)
         except AnalysisError:
@@ -1285,9 +1417,7 @@ def _scenario(ctx, f, d, result, magic=None, also=(), fields=None, no_exceptions
             stop.add(t)
         for name, value in fields.items():
             dict.__setitem__(fixed, (sym.label, name), value)
-    fl = _Flow(ctx, f, fixed, taint=dtexts, stop=stop, magic_attr=set(fields), no_exceptions=no_exceptions)
-    fl.parses = syms
-    return fl
+    return _Flow(ctx, f, fixed, taint=dtexts, stop=stop, magic_attr=set(fields), no_exceptions=no_exceptions, parses=syms)
 
 
 def _is_result(e, keys):
@@ -2608,3 +2738,342 @@ def r8(ctx):
         else:
             ctx.undecided("R8", "ABS", f, text, f"`{what}` may be reached for a well-formed metadata, under conditions that could not be evaluated over its domain "
                           f"({' and '.join(why) or 'none located'}; domain: {desc})", r)
+
+
+# ================================================================================================================= R10
+_TOTAL_BYTES_METHODS = ("strip", "lstrip", "rstrip", "lower", "upper", "replace", "expandtabs", "title", "capitalize", "swapcase")
+_STRICT_CODECS = ("utf-8", "utf8", "utf_8", "u8", "ascii", "us-ascii", "646")
+_LENIENT_ERRORS = ("ignore", "replace", "backslashreplace", "surrogateescape")
+
+
+def _array_fields(ctx):
+    """{name: fixed number of elements | None (variable, may be empty)} of the array fields of struct BeaconMetadata."""
+    from csverif import AnalysisError
+
+    try:
+        cd = ctx.cdefs("c_c2").get("c2struct")
+        s = cd.struct("BeaconMetadata") if cd is not None else None
+    except AnalysisError:
+        return {}
+    out = {}
+    for x in (s.fields if s is not None else []):
+        if x.count is not None:
+            n = None
+            if x.size is not None:
+                try:
+                    n = _c(ast.parse(x.count.strip(), mode="eval").body)
+                except (SyntaxError, ValueError):
+                    n = None
+            out[x.name] = n if isinstance(n, int) and not isinstance(n, bool) and x.size is not None else None
+    return out
+
+
+def _free_form(fl, st, e, arrays):
+    """The name of the array field if the (inlined) expression e is the byte string of an array field of a parsed metadata,
+    possibly passed through total bytes -> bytes methods (strip, lower ..) - only when the field is of variable length
+    (its content *and* length are arbitrary, the empty string included).  (field, min length 0) or None."""
+    e = _unbytes(e)
+    if isinstance(e, ast.Call) and isinstance(e.func, ast.Attribute) and e.func.attr in _TOTAL_BYTES_METHODS:
+        return _free_form(fl, st, e.func.value, arrays)
+    if isinstance(e, ast.Subscript) and isinstance(e.slice, ast.Slice):
+        return _free_form(fl, st, e.value, arrays)  # a slice of arbitrary bytes is arbitrary bytes (and may be empty)
+    if isinstance(e, ast.Attribute) and e.attr in arrays and arrays[e.attr] is None:
+        v = fl.value(st, e.value)
+        if isinstance(v, _Sym) and v.label in fl.parses:
+            return e.attr
+    return None
+
+
+def _split_parts(fl, st, e, arrays):
+    """(field, least number of parts) if e is `<free-form field>.split(..)` / rsplit / splitlines: for the empty string
+    (which is in the domain: info length 0) `b"".split(sep)` has one part, `b"".split()` / `b"".splitlines()` none."""
+    if isinstance(e, ast.Call) and isinstance(e.func, ast.Attribute) and e.func.attr in ("split", "rsplit", "splitlines"):
+        fld = _free_form(fl, st, e.func.value, arrays)
+        if fld is not None:
+            sep = _arg(e, 0, "sep") if e.func.attr != "splitlines" else None
+            none_sep = sep is None or (isinstance(sep, ast.Constant) and sep.value is None)
+            return fld, (0 if none_sep else 1)
+    return None
+
+
+def _partial_ops(ctx, f, fl, arrays):
+    """[(statement, node, description, exception class, verdict)] - operations in f that are *partial* on the content of a
+    free-form field of the parsed metadata (terms by substitution of single-definition locals (3)); verdict False = fails
+    for a named well-formed value (lemma in the description), None = partial, no witness claimed."""
+    fn = f.node
+    fv = FuncView.of(fn)
+    out = []
+    for st in statements(fn):
+        if not fl.cfg.has(st):
+            continue
+        # -- unpacking into a fixed number of targets
+        if isinstance(st, ast.Assign):
+            for t in st.targets:
+                if isinstance(t, (ast.Tuple, ast.List)) and not isinstance(st.value, (ast.Tuple, ast.List)):
+                    need = sum(1 for x in t.elts if not isinstance(x, ast.Starred))
+                    exact = not any(isinstance(x, ast.Starred) for x in t.elts)
+                    sp = _split_parts(fl, st, _inl(fn, st.value), arrays)
+                    if sp is not None:
+                        fld, least = sp
+                        if need > 1 or (need == 1 and least == 0):
+                            out.append((st, st, f"unpacks the parts of `{src(_inl(fn, st.value))[:60]}` into {'exactly' if exact else 'at least'} {need} names; the {fld} field is a free-form "
+                                                f"byte string - an empty {fld} (length 0 is in the domain) splits into {least} part(s)", "ValueError", False))
+                        elif exact:
+                            out.append((st, st, f"unpacks the parts of `{src(_inl(fn, st.value))[:60]}` into exactly {need} name(s); the number of parts depends on the content of {fld}", "ValueError", None))
+                    elif _free_form(fl, st, _inl(fn, st.value), arrays) is not None:
+                        fld = _free_form(fl, st, _inl(fn, st.value), arrays)
+                        if need >= 1:
+                            out.append((st, st, f"unpacks the bytes of the free-form {fld} field into {'exactly' if exact else 'at least'} {need} names; an empty {fld} (length 0 is in the domain) has none", "ValueError", False))
+        heads = [st.test] if isinstance(st, (ast.If, ast.While)) else [st.iter] if isinstance(st, (ast.For, ast.AsyncFor)) else \
+            [i.context_expr for i in st.items] if isinstance(st, (ast.With, ast.AsyncWith)) else [] if isinstance(st, (ast.Try, ast.ExceptHandler, ast.FunctionDef, ast.AsyncFunctionDef, ast.ClassDef)) else [st]
+        for h in heads:
+            for n in ast.walk(h):
+                if isinstance(n, ast.Subscript) and not isinstance(n.slice, ast.Slice) and isinstance(n.ctx, ast.Load):
+                    k = _c(n.slice, _cenv(ctx, f))
+                    if not isinstance(k, int) or isinstance(k, bool):
+                        continue
+                    base = _inl(fn, n.value)
+                    sp = _split_parts(fl, st, base, arrays)
+                    fld = _free_form(fl, st, base, arrays)
+                    if sp is not None and not (sp[1] == 1 and k in (0, -1)):
+                        out.append((st, n, f"element [{k}] of `{src(base)[:60]}`: an empty {sp[0]} (length 0 is in the domain) splits into {sp[1]} part(s)", "IndexError", False))
+                    elif fld is not None:
+                        out.append((st, n, f"byte [{k}] of the free-form {fld} field: an empty {fld} (length 0 is in the domain) has none", "IndexError", False))
+                elif isinstance(n, ast.Call) and isinstance(n.func, ast.Attribute) and n.func.attr == "decode":
+                    fld = _free_form(fl, st, _inl(fn, n.func.value), arrays)
+                    if fld is None:
+                        continue
+                    enc, err = _arg(n, 0, "encoding"), _arg(n, 1, "errors")
+                    encv = _c(inline(fn, enc), _cenv(ctx, f)) if enc is not None else "utf-8"
+                    errv = _c(inline(fn, err), _cenv(ctx, f)) if err is not None else "strict"
+                    if errv in _LENIENT_ERRORS:
+                        continue
+                    strict = isinstance(encv, str) and encv.lower() in _STRICT_CODECS and errv == "strict"
+                    out.append((st, n, f"`{src(n)[:60]}` decodes the free-form {fld} field strictly" + (f" as {encv}: a byte string that contains 0xFF (in the domain: every byte string is a value of {fld}) is neither valid UTF-8 nor ASCII" if strict else ""),
+                                "UnicodeDecodeError", False if strict else None))
+                elif isinstance(n, ast.Call) and isinstance(n.func, ast.Attribute) and n.func.attr in ("index", "rindex") and n.args:
+                    fld = _free_form(fl, st, _inl(fn, n.func.value), arrays)
+                    k = _c(inline(fn, n.args[0]), _cenv(ctx, f))
+                    if fld is not None:
+                        witness = (isinstance(k, (bytes, str)) and len(k) > 0) or (isinstance(k, int) and not isinstance(k, bool))
+                        out.append((st, n, f"`{src(n)[:60]}` on the free-form {fld} field" + (f": an empty {fld} (length 0 is in the domain) does not contain it" if witness else ""), "ValueError", False if witness else None))
+                elif isinstance(n, ast.Call) and dotted(n.func) in ("int", "float") and n.args and not isinstance(n.args[0], ast.Starred):
+                    fld = _free_form(fl, st, _inl(fn, n.args[0]), arrays)
+                    if fld is not None:
+                        out.append((st, n, f"`{src(n)[:60]}` parses the free-form {fld} field as a number: an empty {fld} (length 0 is in the domain) is none", "ValueError", False))
+    return [(st, n, d, c, v, fv) for st, n, d, c, v in out]
+
+
+def r10(ctx):
+    """Field-for-field round trip for *every* field value: on the path on which decrypt_metadata accepts a well-formed
+    metadata no operation may fail for some content of a free-form field (char info[size - k]: any byte string of any
+    length from 0).  Partial operations on such a field (fixed-arity unpacking / indexing of its split parts, indexing of
+    its bytes, strict decoding, index(), int()) that are reached for well-formed metadata and whose exception leaves the
+    function reject metadata the property says must be handed back."""
+    f, d, ctor = _decrypt_subject(ctx)
+    fn = f.node
+    text = "no field content makes the accept path fail"
+    if d is None or any(isinstance(n, ast.Match) for n in ast.walk(fn)):
+        ctx.undecided("R10", "ABS", f, text, f"cannot locate the PKCS#1 decryption: {ctor}" if d is None else "`match` statements are not modelled by the control-flow graph")
+        return
+    fields, desc = _wellformed_fields(ctx)
+    arrays = _array_fields(ctx)
+    if fields is None or not arrays:
+        ctx.undecided("R10", "ABS", f, text, f"domain of well-formed metadata not established: {desc if fields is None else 'no array field in struct BeaconMetadata'}")
+        return
+    cfg = ctx.cfg(f)
+    plain = _Sym("plaintext", truth=True, notnone=True, pytype=bytes, length=fields.pop(None))
+    fl = _scenario(ctx, f, d, plain, fields=fields, no_exceptions=True)
+    if not fl.parses:
+        ctx.undecided("R10", "ABS", f, text, "no struct parse located in decrypt_metadata")
+        return
+    ops = _partial_ops(ctx, f, fl, arrays)
+    free = sorted(k for k, v in arrays.items() if v is None)
+    if not ops:
+        ctx.ob("R10", "ABS", f, text, True, f"no partial operation (fixed-arity unpacking / indexing of split parts, byte indexing, strict decode, index(), int()) on the free-form field(s) {free} of the parsed metadata")
+        return
+    dist = None
+    for st, n, what, cls, verdict, fv in ops:
+        if not fl.live(st):
+            ctx.ob("R10", "ABS", f, text, True, f"{what} - not reached for a well-formed metadata", n)
+            continue
+        h = _local_handler(fv, st, cls)
+        if isinstance(h, ast.ExceptHandler):
+            ctx.ob("R10", "ABS", f, text, True, f"{what} - the {cls} is caught inside decrypt_metadata (`except {src(h.type) if h.type is not None else ''}`)", n)
+            continue
+        if dist is None:
+            raises = cfg.raise_stmts()
+            hs = {id(r): _local_handler(fv, r, _raise_cls(fv, r, fl)) for r in raises}
+            dist = fl.both_count({k: x for k, x in hs.items() if isinstance(x, ast.ExceptHandler)})
+        cnt = dist.get(cfg.node(st))
+        if verdict is False and h is None and cnt == 0:
+            ctx.ob("R10", "ABS", f, text, False, f"decrypt_metadata {what}; the {cls} leaves decrypt_metadata, so a correctly encrypted metadata with magic 0xBEEF is rejected "
+                                                  f"instead of being returned field for field (reached for every well-formed metadata: {desc})", n)
+        else:
+            why = "no witness value is claimed for this operation" if verdict is not False else "it is reached only under conditions that could not be evaluated / may be caught"
+            ctx.undecided("R10", "ABS", f, text, f"{what}; {why}", n)
+
+
+# ================================================================================================================= R11
+def _seed_content_uses(test, texts, cenv):
+    """[(node, both)] - the places where the (inlined) test looks at the *content* of the seed (an expression whose text is
+    in `texts`).  Looking at its shape is no content use: its truthiness (a bytes value is truthy iff it is not empty: `if
+    seed`, `not seed`, operand of and / or, element of a literal sequence handed to any() / all()), `len(seed)`, `seed is
+    None`, isinstance / bool.  both = True for the forms for which a lemma says that both outcomes occur among the 16-byte
+    seeds: any(seed) / all(seed) (sixteen 0x00 bytes; sixteen 0xFF bytes) and ==, !=, in, not in against constant 16-byte
+    strings (that string; a string that differs in one bit)."""
+    out = []
+
+    def is_seed(e):
+        return src(_unbytes(e)) in texts or src(e) in texts
+
+    def scan(e, truth):
+        if is_seed(e):
+            if not truth:
+                out.append((e, False))
+            return
+        if isinstance(e, ast.UnaryOp) and isinstance(e.op, ast.Not):
+            return scan(e.operand, True)
+        if isinstance(e, ast.BoolOp):
+            for v in e.values:
+                scan(v, truth)
+            return
+        if isinstance(e, ast.Compare):
+            operands = [e.left] + list(e.comparators)
+            if any(is_seed(x) for x in operands):
+                consts = [_c(x, cenv) for x in operands if not is_seed(x)]
+                if all(isinstance(op, (ast.Is, ast.IsNot)) for op in e.ops) and all(c is None for c in consts):
+                    return
+                if len(e.ops) == 1 and isinstance(e.ops[0], (ast.Eq, ast.NotEq)) and all(c is None and isinstance(x, ast.Constant) for c, x in zip(consts, [x for x in operands if not is_seed(x)])):
+                    return  # == None
+                both = len(e.ops) == 1 and is_seed(e.left) and (
+                    (isinstance(e.ops[0], (ast.Eq, ast.NotEq)) and isinstance(consts[0], bytes) and len(consts[0]) == 16)
+                    or (isinstance(e.ops[0], (ast.In, ast.NotIn)) and isinstance(consts[0], (tuple, list)) and len(consts[0]) > 0 and all(isinstance(k, bytes) and len(k) == 16 for k in consts[0])))
+                out.append((e, bool(both)))
+                for x in operands:
+                    if not is_seed(x):
+                        scan(x, False)
+                return
+        if isinstance(e, ast.Call) and not e.keywords and len(e.args) == 1 and dotted(e.func) in ("len", "bool", "any", "all"):
+            a = e.args[0]
+            name = dotted(e.func)
+            if is_seed(a):
+                if name in ("any", "all"):
+                    out.append((e, True))
+                return
+            if name in ("any", "all") and isinstance(a, (ast.List, ast.Tuple)):
+                for x in a.elts:
+                    scan(x, True)
+                return
+        if isinstance(e, ast.Call) and dotted(e.func) == "isinstance" and e.args and is_seed(e.args[0]):
+            return
+        for c in ast.iter_child_nodes(e):
+            if isinstance(c, ast.expr):
+                scan(c, False)
+            elif isinstance(c, (ast.keyword, ast.comprehension)):
+                for cc in ast.walk(c):
+                    if isinstance(cc, ast.expr) and is_seed(cc):
+                        out.append((cc, False))
+                        break
+
+    scan(test, True)
+    return out
+
+
+def r11(ctx):
+    """Session keys are the SHA-256 halves of the random bytes for *every* 16-byte seed: a function that derives session
+    keys from a seed must not make the outcome depend on the content of the seed - no raise / failing assert / return of
+    something that is not derived from the seed under a test of the seed's bytes (an in-band sentinel such as "all zero
+    means not set" refuses a seed the property quantifies over).  Tests of the shape of the seed (None, empty, length,
+    type) are not content tests."""
+    n_subjects = 0
+    for f in ctx.repo.all_funcs():
+        if isinstance(f.node, ast.Lambda) or not _relevant(f.node):
+            continue
+        fn = f.node
+        texts = set()
+        first = None
+        for _n, x in _roots(ctx, f, _sinks(ctx, f)):
+            if x.seed is not None and _seed_verdict(f, x.seed)[0] is True:
+                first = first or src(_inl(fn, x.seed))
+                texts |= {src(x.seed), src(_inl(fn, x.seed)), src(_unbytes(x.seed))}
+        if not texts and f.fq == _DERIVE and params(fn):
+            first = params(fn)[0]  # the derivation function itself: its parameter is the seed (R5 judges its body)
+            texts = {first}
+        if not texts:
+            continue
+        n_subjects += 1
+        cfg = ctx.cfg(f)
+        fv = FuncView.of(fn)
+        cenv = _cenv(ctx, f)
+        text = "derivation does not depend on the content of the seed"
+        # "some 16-byte seed": a bytes value of length 16 (truthy, not None) about which nothing else is assumed - used to
+        # decide the shape tests (None / empty / length / type) that dominate a content test
+        anyseed = _Sym("a 16-byte seed", truth=True, notnone=True, pytype=bytes, length=16)
+        senv = _Env(consts=cenv)
+        for t in texts:
+            dict.__setitem__(senv, t, anyseed)
+
+        def unconditional(st):
+            """Is st reached for every 16-byte seed as far as the branch tests before it are concerned: every dominating
+            condition is decided, with the required outcome, by the shape of the seed alone."""
+            for _t, pol, test in dominating_conditions(ctx, f, st):
+                v = _tv(test, senv)
+                if v is None:
+                    v = _tv(inline(fn, test), senv)
+                if v is not pol:
+                    return False
+            return True
+        exits = [r for r in cfg.raise_stmts() if _in_handler(fv, r) is None]
+        for r in cfg.return_stmts():
+            d = _classify(ctx, f, r.value) if r.value is not None else None
+            if d is None or d.kind == "bad":
+                exits.append(r)
+        def core(t):
+            """The operand that decides the test for a 16-byte seed: negations stripped; operands of `and` that are true /
+            of `or` that are false by the shape of the seed alone dropped (when exactly one operand is left)."""
+            while True:
+                if isinstance(t, ast.UnaryOp) and isinstance(t.op, ast.Not):
+                    t = t.operand
+                    continue
+                if isinstance(t, ast.BoolOp):
+                    neutral = isinstance(t.op, ast.And)
+                    rest = [v for v in t.values if _tv(v, senv) is not neutral]
+                    if len(rest) == 1:
+                        t = rest[0]
+                        continue
+                return t
+
+        findings = []  # (node, description, decided)
+        for st in statements(fn):
+            if not cfg.has(st):
+                continue
+            if isinstance(st, (ast.If, ast.While, ast.Assert)):
+                uses = [u for e in {src(st.test): st.test, src(inline(fn, st.test)): inline(fn, st.test)}.values() for u in _seed_content_uses(e, texts, cenv)]
+                if not uses:
+                    continue
+                if isinstance(st, ast.Assert):
+                    controlled = [st]
+                else:
+                    edges = [cfg.edge_node(st, lab) for lab in ("true", "false")]
+                    controlled = [x for x in exits if cfg.has(x) and any(cfg.dominates(e, cfg.node(x)) for e in edges)]
+                if not controlled:
+                    continue  # the test decides nothing about the keys (logging ..)
+                t = core(inline(fn, st.test))
+                exact = any(both and src(n) == src(t) for n, both in uses)
+                top = unconditional(st)
+                findings.append((st, f"`{src(st.test)[:60]}` looks at the bytes of the seed `{first[:40]}` and decides whether `{src(controlled[0]).splitlines()[0][:60]}` is reached", exact and top))
+            for h in ([st] if not isinstance(st, (ast.If, ast.While, ast.For, ast.AsyncFor, ast.With, ast.AsyncWith, ast.Try, ast.ExceptHandler, ast.FunctionDef, ast.AsyncFunctionDef, ast.ClassDef)) else []):
+                for n in ast.walk(h):
+                    if isinstance(n, ast.IfExp) and _seed_content_uses(inline(fn, n.test), texts, cenv) and isinstance(st, (ast.Return, ast.Assign, ast.AnnAssign, ast.Raise)):
+                        findings.append((st, f"the conditional expression `{src(n)[:60]}` selects a value by the bytes of the seed `{first[:40]}`", False))
+        if not findings:
+            ctx.ob("R11", "DOM", f, text, True, f"no raise / assert / return of non-derived keys is decided by a test of the bytes of `{first[:40]}` (shape tests - None, empty, length, type - aside)")
+            continue
+        for st, what, decided in findings:
+            if decided:
+                ctx.ob("R11", "DOM", f, text, False, f"{what}: both outcomes of the test occur among the 16-byte seeds (lemma: any / all - sixteen 0x00 resp. 0xFF bytes; a comparison with a constant "
+                                                     f"16-byte string - that string and one that differs in a bit), so for some seed the session keys are not the halves of SHA-256 over it", st)
+            else:
+                ctx.undecided("R11", "DOM", f, text, f"{what}; whether both outcomes occur among the 16-byte seeds is not decided", st)
+    ctx.rep.count("seed_content_subjects", n_subjects, floor=3)
